@@ -113,6 +113,26 @@ PROPS = {
         required="faithful",
         nontrivial="an enumerated schedule in which at least one compare-exchange failed and was retried",
     ),
+    "C14": dict(
+        domain="saveload", module="Props.C14",
+        theorems=["C14_serialize_image", "C14_serialize_panics_only_on_dangling", "C14_round_trip", "C14_bijection",
+                  "C14_entity_count", "C14_serialize_data_spec", "C14_recursive_closure", "C14_recursive_round_trip",
+                  "C14_recursive_fuel_enough"],
+        required="faithful",
+        nontrivial="history contains a round trip into an empty world whose data has at least two records and at "
+                   "least one reference slot",
+    ),
+    "C15": dict(
+        domain="saveload", module="Props.C15",
+        theorems=["C15_history_invariant", "C15_invariant_empty", "C15_invariant_meaning", "C15_ids_unique",
+                  "C15_mapping_agrees", "C15_counter_above", "C15_mark_existing", "C15_mark_fresh", "C15_load_merges",
+                  "C15_load_components", "C15_load_removes_absent", "C15_load_untouched", "C15_repeated_load",
+                  "C15_stale_not_trusted", "C15_alloc_maintain_exact", "C15_nonfresh_id_refuted",
+                  "C15_u64_wrap_refuted"],
+        required="faithful",
+        nontrivial="history contains a load into a world that already holds one of the data's marker ids and that "
+                   "also creates an entity, or a Mark of an already marked entity",
+    ),
 }
 
 # ------------------------------------------------------------------ known findings
@@ -620,6 +640,9 @@ def run_check(pid, tier, seed):
     if dom == "conc":
         from . import conc_check
         return conc_check.check_conc(pid, tier, seed, PROPS, proof_obligations, TRUSTED_COMMON)
+    if dom == "saveload":
+        from . import saveload_check      # imported here: saveload_check imports this module
+        return saveload_check.check_saveload(pid, tier, seed)
     raise SystemExit("unknown domain")
 
 
@@ -635,6 +658,9 @@ def replay(path):
     if obj.get("domain") == "conc":
         from . import conc_check
         return conc_check.replay_conc(path, obj)
+    if obj.get("domain") == "saveload":
+        from . import saveload_check
+        return saveload_check.replay_saveload(obj, path)
     if "encoded" not in obj:
         print(json.dumps(obj, indent=1))
         return 1
